@@ -111,8 +111,15 @@ func (l *Loaded) Taint(cfg *config.Config) (TaintResult, taint.AnalysisResult) {
 		for src := range srcs {
 			rp, ok2 := l.PosOf(src.Instr)
 			if !ok1 || !ok2 {
+				// an end inside a synthetic wrapper ($bound, $thunk) has no position: keep the flow, with a
+				// placeholder position, so that checks keyed on the other end can still see it
 				out.NoPosEnds++
-				continue
+				if !ok1 {
+					sp = Pos{File: "<nopos>", Line: 0}
+				}
+				if !ok2 {
+					rp = Pos{File: "<nopos>", Line: 0}
+				}
 			}
 			fp := FlowPair{Src: rp, Snk: sp}
 			if !seen[fp] {
